@@ -13,6 +13,7 @@
 #include <sstream>
 #include <sys/wait.h>
 #include <unistd.h>
+#include <unordered_map>
 #include <unordered_set>
 
 namespace e1 {
@@ -94,6 +95,15 @@ static ExecResult parse_report(const std::string &data, int status, bool timed_o
           break;
         r.ncand.push_back(n);
         r.choices.push_back(c);
+        s += used;
+      }
+    } else if (line[0] == 'K') {
+      const char *s = line.c_str() + 1;
+      while (*s) {
+        int k, used = 0;
+        if (sscanf(s, " %d%n", &k, &used) < 1)
+          break;
+        r.kinds.push_back(k);
         s += used;
       }
     } else if (line[0] == 'H') {
@@ -221,6 +231,7 @@ ExploreStats explore(const std::function< void(const std::vector< int > &) > &ch
     return std::chrono::duration< double >(std::chrono::steady_clock::now() - t0).count();
   };
   std::unordered_set< uint64_t > visited;
+  std::unordered_map< uint64_t, int > visited_used;
   // work items of the current bound and of the next one
   // a prefix is stored sparsely: its deviations (position, choice) and length
   struct Item {
@@ -327,6 +338,15 @@ ExploreStats explore(const std::function< void(const std::vector< int > &) > &ch
       bool stop = false;
       for (size_t k = 0; k < r.choices.size() && !stop; ++k) {
         if (k >= r.prefix.size()) {
+          if (opt.prune_bounded && k < r.hashes.size()) {
+            auto f = visited_used.find(r.hashes[k]);
+            if (f != visited_used.end() && f->second <= u) {
+              ++st.pruned_by_hash;
+              stop = true;
+              break;
+            }
+            visited_used[r.hashes[k]] = u;
+          }
           if (opt.use_hashing && k < r.hashes.size()) {
             if (!visited.insert(r.hashes[k]).second) {
               ++st.pruned_by_hash;
@@ -334,6 +354,8 @@ ExploreStats explore(const std::function< void(const std::vector< int > &) > &ch
               break;
             }
           }
+          if (k < r.kinds.size() && !((1u << r.kinds[k]) & opt.kind_mask))
+            goto next_point;
           for (int alt = 1; alt < r.ncand[k]; ++alt) {
             Item it;
             for (size_t q = 0; q < k; ++q)
@@ -347,12 +369,13 @@ ExploreStats explore(const std::function< void(const std::vector< int > &) > &ch
               next_work.push_back(it);
           }
         }
+      next_point:
         if (r.choices[k] != 0)
           ++u;
       }
     }
   }
-  st.distinct_states = visited.size();
+  st.distinct_states = visited.size() + visited_used.size();
   return st;
 }
 
